@@ -188,6 +188,8 @@ class Ctx:
         self._nontrivial = set()
         self.level = "model_checking"
         self.findings = load_findings(prop)
+        if not replay:
+            shutil.rmtree(os.path.join(VERIF, "replays", prop), ignore_errors=True)
         self.notes = []
 
     # -- logging
